@@ -11,8 +11,8 @@ from ..models.seg import seg
 
 ID = "C06"
 LEVEL = "exploration"
-TIERS = {"quick": {"shards": 16, "budget_s": 25, "burst_tuples": 60, "max_windows": 60},
-         "thorough": {"shards": 16, "budget_s": 420, "burst_tuples": 4000, "max_windows": 400}}
+TIERS = {"quick": {"shards": 16, "budget_s": 120, "burst_tuples": 60, "max_windows": 60},
+         "thorough": {"shards": 16, "budget_s": 900, "burst_tuples": 4000, "max_windows": 400}}
 RULE = ("(a) accept/reject: split() called on the full decimal grid DUR x DUR x SIL x WIN x RATE (incl. zero, negative and "
         "sub-sample windows); ValueError iff the WIN model (exact rationals, quotients within 1e-9 of an integer count as "
         "that integer) rejects.  (b) honoured counts: for accepted tuples, 16-bit mono audio made of isolated bursts of "
